@@ -41,7 +41,7 @@ def main():
             rc, out = sh("bin/verif check %s --tier quick" % p, cwd=ROOT, env=dict(ENV, VERIF_REPO=wt))
             line = [l for l in out.splitlines() if l.startswith(("VIOLATION", "BROKEN"))]
             info = {"exit": rc, "line": line[:1], "summary": out.strip().splitlines()[-1] if out.strip() else "", "wall_s": round(time.time() - t0, 1)}
-            rp = os.path.join(ROOT, "build", "alt", "replays", "%s-1-0.json" % p)
+            rp = os.path.join(ROOT, "build", os.environ.get("VERIF_ALT", "alt"), "replays", "%s-1-0.json" % p)
             if rc == 1 and os.path.exists(rp):
                 d = json.load(open(rp))
                 info["replay_kind"], info["oracle"], info["what"] = d.get("kind"), d.get("oracle"), str(d.get("what", ""))[:500]
